@@ -2,6 +2,7 @@
 
 from __future__ import annotations
 
+import copy
 import itertools
 import json
 import re
@@ -150,7 +151,7 @@ def spec(e, c, u, l):
 PLACEMENTS = ["none", "top", "in_group", "in_repeat", "in_group_in_repeat", "in_repeat_in_group", "on_group", "on_repeat", "two"]
 
 
-def build(combo, placement, rng, dataset="trees", save_name="prop_a", extra_col=None, rows2=False, namespaces=None):
+def build(combo, placement, rng, dataset="trees", save_name="prop_a", extra_col=None, rows2=False, namespaces=None, second_row=None):
     e, c, u, l = combo
     ent = {"dataset": dataset}
     for flag, key in zip(combo, ("entity_id", "create_if", "update_if", "label")):
@@ -178,7 +179,7 @@ def build(combo, placement, rng, dataset="trees", save_name="prop_a", extra_col=
         survey += [{"type": "begin group", "name": "g", "label": "G", **sv}, {"type": "text", "name": "q2", "label": "Q2"}, {"type": "end group"}]
     elif placement == "on_repeat":
         survey += [{"type": "begin repeat", "name": "r", "label": "R", **sv}, {"type": "text", "name": "q2", "label": "Q2"}, {"type": "end repeat"}]
-    form = {"survey": survey, "entities": [ent] + ([{"dataset": "d2", "label": "'x'"}] if rows2 else [])}
+    form = {"survey": survey, "entities": [ent] + ([second_row or {"dataset": "d2", "label": "'x'"}] if rows2 else [])}
     if namespaces:
         form["settings"] = [{"namespaces": namespaces}]
     return form
@@ -261,6 +262,8 @@ def _check(args):
         expect_reject = True
     elif variant == "two_rows":
         kw["rows2"] = True
+        # the second row need not name a dataset to be a second row
+        kw["second_row"] = rng.choice([None, {"label": "'x'", "create_if": "true()"}, {"label": "'y'"}, {"entity_id": "${q1}"}])
         expect_reject = True
     elif variant == "namespaces":
         kw["namespaces"] = 'esri="http://esri.com/x"'
@@ -268,12 +271,20 @@ def _check(args):
         kw["dataset"] = rng.choice(["trees", "_d", "a-b", "é1"])
         kw["save_name"] = rng.choice(["p", "Names", "labels", "_q", "x-y.z"])
     form = build(combo, placement, rng, **kw)
-    st, r = xf.convert_form(forms.as_dict(form))
+    # the save_to column under any of its accepted headers (the audit reads the canonical key)
+    spelled = rng.choice(["save_to", "save_to", "Save_To", "save to", "bind::entities:saveto", "SAVE_TO", " save_to "])
+    conv = copy.deepcopy(form)
+    for row in conv["survey"]:
+        if "save_to" in row and spelled != "save_to":
+            items = [((spelled if k == "save_to" else k), v) for k, v in row.items()]
+            row.clear()
+            row.update(items)
+    st, r = xf.convert_form(forms.as_dict(conv))
     if st == "crash":
         return {"i": i, "skip": "crash (C17)"}
     if expect_reject:
         if st == "ok":
-            return {"i": i, "form": form, "what": f"accepted although the documented table rejects it (combo id,create,update,label={combo}, save_to {placement}, {variant})"}
+            return {"i": i, "form": form, "what": f"accepted although the documented table rejects it (combo id,create,update,label={combo}, save_to {placement} under the header {spelled!r}, {variant})", "conv": conv}
         return {"i": i, "ok": True, "rejected": True, "key": (combo, placement, variant)}
     if st != "ok":
         return {"i": i, "form": form, "what": f"rejected ({str(r)[:150]}) although the documented table accepts it (combo={combo}, save_to {placement}, {variant})"}
@@ -314,7 +325,7 @@ def oracle(seed, tier, searching=False):
                 "meta/entity attributes, binds, setvalue, namespace, version and saveto audited on the real XForm against an independent "
                 "transcription of the documented table; distinct by (combination, placement, variant)",
         "accepted": sum(1 for r in oks if not r["rejected"]), "rejected_as_documented": sum(1 for r in oks if r["rejected"]),
-        "failures": [{"input": {"form": f["form"], "case": f["i"]}, "what": f["what"], "observed": f.get("xform"),
+        "failures": [{"input": {"form": f.get("conv") or f["form"], "case": f["i"], "expect": "reject" if "accepted although" in f["what"] else "accept"}, "what": f["what"], "observed": f.get("xform"),
                       "reproduce": "cd /verif && /venv/bin/python harness/check.py C19"} for f in fails],
         "samples": [{"combo": list(r["key"][0]), "save_to": r["key"][1], "variant": r["key"][2], "rejected": r["rejected"]} for r in oks[:4]],
     }
@@ -328,4 +339,9 @@ def replay(path: Path) -> int:
     payload = json.loads(Path(path).read_text())
     st, r = xf.convert_form(forms.as_dict(payload["input"]["form"]))
     print(st, str(r)[:200] if st != "ok" else "")
-    return 1
+    expect = payload["input"].get("expect")
+    if (expect == "reject" and st == "ok") or (expect == "accept" and st != "ok") or expect is None:
+        print(f"VIOLATION property={PID} replay={path}")
+        return 1
+    print("the documented table is followed for this input on this tree")
+    return 0
